@@ -224,8 +224,12 @@ def _run(prog, x):
     out = numpy.atleast_1d(numpy.asarray(out, dtype=object)).copy()
     # entries that never met an input (a plain constant written into a buffer) are constants
     for idx in numpy.ndindex(*out.shape):
-        if not isinstance(out[idx], Jet):
-            out[idx] = Jet.const(_frac(out[idx]), x[0])
+        e = out[idx]
+        if isinstance(e, numpy.ndarray) and e.shape == ():
+            e = e.item()
+        if not isinstance(e, Jet):
+            e = Jet.const(_frac(e), x[0])
+        out[idx] = e
     return out
 
 
